@@ -8,8 +8,9 @@ import (
 func CutOffAbsoluteValue(m memory.Memory, start uint16, end uint16, p float64) uint64 {
 	temp := map[uint64]bool{}
 
-	for count := start; count <= end; count++ {
-		temp[m.GetStatistics(count)] = true
+	// Count in 32 bits: a 16 bit counter wraps around when end is 0xFFFF
+	for count := uint32(start); count <= uint32(end); count++ {
+		temp[m.GetStatistics(uint16(count))] = true
 	}
 
 	keys := []uint64{}
@@ -36,8 +37,9 @@ func CutOffMedian(m memory.Memory, start uint16, end uint16, p float64) uint64 {
 
 	temp := []uint64{}
 
-	for count := start; count <= end; count++ {
-		temp = append(temp, m.GetStatistics(count))
+	// Count in 32 bits: a 16 bit counter wraps around when end is 0xFFFF
+	for count := uint32(start); count <= uint32(end); count++ {
+		temp = append(temp, m.GetStatistics(uint16(count)))
 	}
 
 	sort.Slice(temp, func(i, j int) bool { return temp[i] < temp[j] })
